@@ -28,6 +28,7 @@ import (
 	"fmt"
 	"net"
 	"net/netip"
+	"os"
 	"sort"
 	"strconv"
 	"strings"
@@ -52,6 +53,8 @@ type verifCtx struct {
 	nsub     int
 	ndel     int
 	stream   bool
+
+	sawDupTimer bool
 }
 
 func (v *verifCtx) emit(s string) { v.trace = append(v.trace, s) }
@@ -174,6 +177,15 @@ func (v *verifCtx) sampleAll() {
 			continue
 		}
 		v.sampleMem(tId)
+		if !v.sawDupTimer {
+			seen := make(map[*Connection]bool, len(t.resendTimers.array.connections))
+			for _, c := range t.resendTimers.array.connections {
+				if seen[c] {
+					v.sawDupTimer = true
+				}
+				seen[c] = true
+			}
+		}
 		conns := make([]*Connection, 0, len(t.handshakeByPid))
 		for _, c := range t.handshakeByPid {
 			conns = append(conns, c)
@@ -225,6 +237,8 @@ func (v *verifCtx) newMessage(transportId, dstId, messageSize int) {
 // than that, so the instrumented driver only gives up after this many consecutive idle rounds.
 const verifPatience = 8
 
+var verifStepDebug = os.Getenv("VERIF_DEBUG") == "3"
+
 // VerifSimResult is what the harness prints.
 type VerifSimResult struct {
 	Status     string // "settled", "stuck" (no progress while data is pending), "steps" (step bound hit), "panic"
@@ -258,8 +272,25 @@ func VerifSim(fuzz []byte, withBumpGenerationsAndRestarts bool, streamLike bool,
 	defer func() {
 		if p := recover(); p != nil {
 			res.Status = "panic"
-			res.Summary = "-"
 			res.PanicMsg = fmt.Sprint(p)
+			// canonical class of the panic (never the text) and whether the simulator had, at some point,
+			// the same connection twice in a resend timer queue (impossible in the real goWrite, which
+			// guards resendTimers.Add with inResendQueueFlag; doGoWriteStep of the simulator does not)
+			class := "other"
+			if strings.Contains(res.PanicMsg, "conn have not-acked chunks, but will not send it") {
+				// the simulator's invariant ignores that a connection still waiting in the send queue
+				// arms its resend timer when its turn comes (goWrite: needResendTimer after every datagram)
+				class = "notacked-nosend-insendq"
+				for _, t := range fctx.ts {
+					for _, c := range t.handshakeByPid {
+						if c.outgoing.nonTimeoutedSeqNum < c.outgoing.nextSeqNo &&
+							!(c.outgoing.haveChunksToSendNow(t) || c.GetFlag(inResendQueueFlag)) && !c.GetFlag(inSendQueueFlag) {
+							class = "notacked-nosend"
+						}
+					}
+				}
+			}
+			res.Summary = fmt.Sprintf("panic=%s duptimer=%v", class, v.sawDupTimer)
 		}
 		res.Trace = v.trace
 	}()
@@ -301,6 +332,7 @@ func VerifSim(fuzz []byte, withBumpGenerationsAndRestarts bool, streamLike bool,
 	}
 
 	for i := 0; i+2 < len(fuzz); {
+		cmdStart := i
 		switch fuzz[i] {
 		case 'n':
 			transportId := fuzzVerbToTransportId(fuzz[i+1])
@@ -366,6 +398,9 @@ func VerifSim(fuzz []byte, withBumpGenerationsAndRestarts bool, streamLike bool,
 			continue
 		}
 		v.sampleAll()
+		if verifStepDebug {
+			fmt.Fprintf(os.Stderr, "--- after command ending at byte %d (%c)\n%s", i, fuzz[cmdStart], verifDump(fctx))
+		}
 	}
 
 	// ---- repair the network: FuzzDyukov's settle schedule, run until quiescence
@@ -490,6 +525,7 @@ func VerifSim(fuzz []byte, withBumpGenerationsAndRestarts bool, streamLike bool,
 			// classify: is every connection that still has something pending talking to a peer whose
 			// connection object for it has a different generation (peer restarted, this side not told)?
 			res.StuckClass = "genmismatch"
+			obsGen := false
 			for tId, t := range fctx.ts {
 				for _, conn := range t.handshakeByPid {
 					a := conn.outgoing.messageQueue.Len() > 0
@@ -497,6 +533,11 @@ func VerifSim(fuzz []byte, withBumpGenerationsAndRestarts bool, streamLike bool,
 					c := conn.incoming.windowChunks.LenMoreThan1()
 					if !(a || b || c) {
 						continue
+					}
+					if conn.status == ConnectionSentObsoleteGeneration {
+						// goWrite() resets this status after the datagram is queued; the simulator's
+						// doGoWriteStep does not, so the connection only ever sends obsolete-generation notices
+						obsGen = true
 					}
 					peerId := portToTransportId(int(conn.remotePort))
 					same := false
@@ -507,6 +548,30 @@ func VerifSim(fuzz []byte, withBumpGenerationsAndRestarts bool, streamLike bool,
 					}
 					if same {
 						res.StuckClass = "other"
+					}
+				}
+			}
+			if res.StuckClass == "other" && obsGen {
+				res.StuckClass = "obsgen"
+			}
+			if res.StuckClass == "other" {
+				// a connection whose peer restarted (different generation on the other side) still holds
+				// acquired incoming memory: the waiters behind it can starve
+				for tId, t := range fctx.ts {
+					for _, conn := range t.handshakeByPid {
+						if conn.incoming.messagesTotalOffset-conn.incoming.messagesBeginOffset <= 0 {
+							continue
+						}
+						peerId := portToTransportId(int(conn.remotePort))
+						same := false
+						for _, pc := range fctx.ts[peerId].handshakeByPid {
+							if portToTransportId(int(pc.remotePort)) == tId && pc.generation == conn.generation {
+								same = true
+							}
+						}
+						if !same && t.memoryWaiters.Len() > 0 {
+							res.StuckClass = "stalemem"
+						}
 					}
 				}
 			}
